@@ -4,22 +4,27 @@ import flowpaths.utils.dominators as dominators
 from queue import Queue
 
 def find_path(adj_dict, s, t):
-    """Find a path from s to t using DFS."""
-    def dfs_path(node, path: list, visited: set):
-        if node == t:
-            return True
-        visited.add(node)
-        for neighbor in adj_dict[node]:
-            if neighbor not in visited:
-                path.append(neighbor)
-                if dfs_path(neighbor, path, visited):
-                    return True
-                path.pop()  # Backtrack if this path doesn't lead to t
-        return False
-    
+    """Find a path from s to t using DFS (iterative: a long path must not exhaust the recursion limit)."""
     path = [s]
-    visited = set()
-    dfs_path(s, path, visited)
+    visited = {s}
+    # one iterator over the neighbors per node on the current path
+    iterators = [iter(adj_dict[s])]
+    while path and path[-1] != t:
+        advanced = False
+        for neighbor in iterators[-1]:
+            if neighbor not in visited:
+                visited.add(neighbor)
+                path.append(neighbor)
+                iterators.append(iter(adj_dict[neighbor]))
+                advanced = True
+                break
+        if not advanced:
+            # Backtrack if this path doesn't lead to t
+            iterators.pop()
+            if len(path) > 1:
+                path.pop()
+            else:
+                break
     return path
 
 def find_idom(adj_dict, s, t) -> list:
